@@ -73,11 +73,11 @@ theorem coveredBy_eq_spec {t : Node α} (hi : t.Inv W) {q : Pfx} (hq : q.WF W) :
     rw [Bool.eq_iff_iff, decide_eq_true_eq, commonPrefix_eq_right_iff hi.1 hq, root_covered_iff hi hq]
     simp [SMap.coveredBy, List.all_eq_true]
 
-/-- **LPM, proved part (general form)**: whenever no node of the trie that is LONGER than the
-query contains the query's base address (`LpmSafe`), `LPM` returns exactly the longest
-stored prefix containing the query, and nothing iff no stored prefix contains it.
-(Without the guard the statement is false of the code: `lpm_cidr_counterexample`.) -/
-theorem lpm_safe_eq_spec_partial {t : Node α} (hi : t.Inv W) {q : Pfx} (hq : q.WF W) (hs : LpmSafe W t q) :
+/-- **LPM, proved part (most general form)**: whenever the walk of `LPM(q)` meets no node
+longer than `q` (`WalkOk`), `LPM` returns exactly the longest stored prefix containing the
+query, and nothing iff no stored prefix contains it.  (Without a guard the statement is false
+of the code: `lpm_cidr_counterexample`.) -/
+theorem lpm_walk_eq_spec_partial {t : Node α} (hi : t.Inv W) {q : Pfx} (hq : q.WF W) (hs : WalkOk W t q) :
     (∀ p v, t.lpm W q = some (p, v) → IsLpm W t.toList q p v) ∧
     (t.lpm W q = none ↔ ∀ p v, (p, v) ∈ t.toList → ¬ p.covers W q = true) ∧
     (∀ p v, IsLpm W t.toList q p v → t.lpm W q = some (p, v)) := by
@@ -104,13 +104,37 @@ theorem lpm_safe_eq_spec_partial {t : Node α} (hi : t.Inv W) {q : Pfx} (hq : q.
     · rw [h1]; simp only [true_iff]; exact h2
     · exact absurd h.2.1 (h2 p' v' h.1)
 
-/-- **LPM for single addresses** (`/32`, `/128` — every production caller): the guard of
-`lpm_safe_eq_spec_partial` always holds. -/
+/-- **LPM when no longer node contains the query's base address** (`LpmSafe`). -/
+theorem lpm_safe_eq_spec_partial {t : Node α} (hi : t.Inv W) {q : Pfx} (hq : q.WF W) (hs : LpmSafe W t q) :
+    (∀ p v, t.lpm W q = some (p, v) → IsLpm W t.toList q p v) ∧
+    (t.lpm W q = none ↔ ∀ p v, (p, v) ∈ t.toList → ¬ p.covers W q = true) ∧
+    (∀ p v, IsLpm W t.toList q p v → t.lpm W q = some (p, v)) :=
+  lpm_walk_eq_spec_partial hi hq (walkOk_of_lpmSafe hs)
+
+/-- **LPM for single addresses** (`/32`, `/128` — every production caller): the guard always holds. -/
 theorem lpm_host_eq_spec_partial {t : Node α} (hi : t.Inv W) {q : Pfx} (hq : q.WF W) (hh : q.len = W) :
     (∀ p v, t.lpm W q = some (p, v) → IsLpm W t.toList q p v) ∧
     (t.lpm W q = none ↔ ∀ p v, (p, v) ∈ t.toList → ¬ p.covers W q = true) ∧
     (∀ p v, IsLpm W t.toList q p v → t.lpm W q = some (p, v)) :=
   lpm_safe_eq_spec_partial hi hq (lpmSafe_of_host hi hh)
+
+/-- **LPM for a query that is a node of the trie** (a stored CIDR, or the CIDR of a data-less
+intermediate node): the walk stops at that node, so the answer is again exactly the longest
+stored prefix containing the query.  Together with `lpm_host_eq_spec_partial` this delimits
+the defect: `LPM` can only be wrong for a non-single-address query that is NOT a node. -/
+theorem lpm_node_eq_spec_partial {t : Node α} (hi : t.Inv W) {q : Pfx} (hq : q.WF W) {c' d' l' r'}
+    (hn : t.getNode W q = .node c' d' l' r') :
+    (∀ p v, t.lpm W q = some (p, v) → IsLpm W t.toList q p v) ∧
+    (t.lpm W q = none ↔ ∀ p v, (p, v) ∈ t.toList → ¬ p.covers W q = true) ∧
+    (∀ p v, IsLpm W t.toList q p v → t.lpm W q = some (p, v)) :=
+  lpm_walk_eq_spec_partial hi hq (walkOk_of_getNode hi hn)
+
+/-- In particular for every STORED query CIDR. -/
+theorem lpm_stored_eq_spec_partial {t : Node α} (hi : t.Inv W) {q : Pfx} (hq : q.WF W) {v : α}
+    (hs : (q, v) ∈ t.toList) : t.lpm W q = some (q, v) := by
+  obtain ⟨c', d', l', r', hn⟩ := getNode_of_mem hi hq hs
+  refine (lpm_node_eq_spec_partial hi hq hn).2.2 q v ⟨hs, covers_refl hq, fun p' v' hm hx => ?_⟩
+  exact covers_len (Inv.mem_wf hi hm) hq hx
 
 /-- **LPM is wrong for non-single-address queries** (Lean witness of the negation
 of the full statement; reproduced on the real code by the harness oracle,
@@ -205,6 +229,7 @@ theorem closestDescendants_unstored_example :
 
 example : (run 32 (exOps ++ [.upd ⟨0x0a000000, 16⟩ 4])).closestDescendants 32 ⟨0x0a000000, 16⟩
     = [⟨0x0a000100, 24⟩, ⟨0x0a000201, 32⟩] := by decide
+example : (run 32 exOps).lpm 32 ⟨0x0a000100, 24⟩ = some (⟨0x0a000100, 24⟩, 1) := by decide
 example : (run 32 exOps).lookupPath 32 ⟨0x0a000201, 32⟩ = [(⟨0x0a000201, 32⟩, 2)] := by decide
 example : LpmSafe 32 (run 32 exOps) ⟨0x0a000105, 32⟩ := lpmSafe_of_host (trie_inv_reachable _ (by decide)) rfl
 end CalicoVerif.C36
